@@ -1,6 +1,7 @@
 import Driver.Proto
 import NutsModel.C07.Dispatch
 import NutsModel.C07.Addr
+import NutsModel.C07.ConvLock
 import NutsModel.Facts.C07
 open Lean Nuts.Drv Nuts.Proto Nuts.Proto.Disp
 
@@ -105,10 +106,60 @@ def stepAddr (j : Json) : String :=
 
 end Nuts.Drv.C07Addr
 
+namespace Nuts.Drv.C07ConvLock
+open Nuts.Proto Nuts.Proto.ConvLock
+
+/-! op `convlock`: the conversation functions of the model (Dag.lean) called directly; the lock token of a method comes from
+    the REGENERATED event list (Facts.C07.convLockEvents) through `methodOK`. -/
+
+def lockTok (method : String) : String :=
+  match Nuts.Facts.C07.convLockEvents.find? (fun m => m.1 == method) with
+  | some m => if methodOK m.2 then "free" else "held"
+  | none => "nomethod"
+
+structure St where
+  n : Node := { id := 0 }
+  started : List Cid := []
+  out : List String := []
+
+def call (cfg : Cfg) (s : St) (c : Json) : St :=
+  let name := match c.getArrVal? 0 with | .ok (Json.str x) => x | _ => "?"
+  let k := match c.getArrVal? 1 with | .ok j => (j.getNat?.toOption.getD 0) | _ => 0
+  let pick : Option Cid := if s.started.isEmpty then none else s.started[k % s.started.length]?
+  let fin := fun (n : Node) (started : List Cid) (tok method : String) =>
+    { s with n := n, started := started, out := s.out ++ [s!"{tok}:{lockTok method}:n={n.convs.length}"] }
+  let start := fun (data : ConvData) =>
+    match startConversation cfg s.n k data with
+    | none => fin s.n s.started s!"{name}:p{k}:refused" "startConversation"
+    | some (n', cid) => fin n' (s.started ++ [cid]) s!"{name}:p{k}:ok" "startConversation"
+  match name with
+  | "startR" => start (.rangeQuery 0 0)
+  | "startL" => start (.listQuery [])
+  | "startS" => start (.state 0)
+  | "done" =>
+    match pick with
+    | some cid => fin (convDone s.n cid) s.started s!"done:{k % s.started.length}" "done"
+    | none => fin s.n s.started "done:skip" "done"
+  | "reset" =>
+    match pick with
+    | some cid => fin (resetTimeout cfg s.n cid) s.started s!"reset:{k % s.started.length}" "resetTimeout"
+    | none => fin s.n s.started "reset:skip" "resetTimeout"
+  | "evict" => fin (evict s.n) s.started "evict" "evict"
+  | "check" => fin s.n s.started "check:unknown" "check"
+  | _ => fin s.n s.started s!"{name}:?" "?"
+
+def stepConvLock (j : Json) : String :=
+  let cfg : Cfg := { Nuts.Drv.Proto.baseCfg with validity := if jBool j "valid" then Nuts.Drv.Proto.baseCfg.validity else 0 }
+  let s := (jArr j "calls").foldl (call cfg) {}
+  " ".intercalate (["convlock"] ++ s.out)
+
+end Nuts.Drv.C07ConvLock
+
 def step07 (d : Nuts.Drv.Proto.DSt) (j : Json) : Nuts.Drv.Proto.DSt × List String :=
   match jStr j "op" with
   | "disp" => (d, [Nuts.Drv.C07Disp.stepDisp j])
   | "addr" => (d, [Nuts.Drv.C07Addr.stepAddr j])
+  | "convlock" => (d, [Nuts.Drv.C07ConvLock.stepConvLock j])
   | _ => Nuts.Drv.Proto.step d j
 
 def main : IO Unit := do
